@@ -12,6 +12,7 @@ def check(ctx):
     ctx.rule("C03.T4", "every registry entry is transformed; is_stale = membership in the stale set; every write node is required")
     ctx.rule("C03.T5", "all_ancestors is a complete predecessor closure seeded with all required nodes and the output; prune removes exactly the complement")
     ctx.rule("C03.T7", "every worker is joined before run returns, also on KeyboardInterrupt (an abandoned in-flight write could land after a later run's write)")
+    ctx.rule("C03.T8", "execution premises re-evaluated under this id: a call (and the store write that follows it, and the stale check of a node) starts only after everything it depends on finished successfully; a failed call releases nothing; the callbacks are driven only by the engine")
     ctx.rule("C03.T6", "the stale check examines a copy from which only unregistered source literals were removed")
     ctx.assume("determinism of calls, stores returning what was written and increasing modified times are assumptions of the property; value equality over histories is not decided")
     er = E.discover(ctx.model)
@@ -33,4 +34,9 @@ def check(ctx):
     ctx.run(S.rule_apply_examines_whole_plan, "C03.T6", rr)
     # interrupted runs are part of the histories: no store write may still be in flight when run returns
     ctx.run(E.rule_pool_joins, "C03.T7", er)
+    # values are only stored from computations whose inputs were complete: ordering and failure containment of the engine
+    ctx.run(E.rule_enqueue_after_success, "C03.T8", er)
+    ctx.run(E.rule_atomic_counter, "C03.T8", er)
+    ctx.run(E.rule_counting_agreement, "C03.T8", er)
+    ctx.run(E.rule_callbacks_only_via_engine, "C03.T8", er, [rr.runcb, rr.stalecb])
     ctx.run(E.rule_interrupt_cleanup, "C03.T7", er)
